@@ -557,6 +557,53 @@ func main() {
 		}
 	}
 
+	// 2c. truncation at (and one byte around) every structural boundary of the message: the
+	// end of each fixed part, of each vector and of each extension.  A missing bounds check
+	// before reading the next length byte shows only when the input ends exactly there.
+	for i := 0; i < run.Scale(14, 300); i++ {
+		h := genHello(r)
+		if i%2 == 0 {
+			h.Session = randBytes(r, []int{0, 1, 32}[r.Intn(3)])
+		}
+		hs := h.handshake()
+		var bounds []int
+		off := 4 + 2 + 32 // handshake header, version, random
+		bounds = append(bounds, 4, 6, off)
+		off += 1 + len(h.Session)
+		bounds = append(bounds, off-len(h.Session), off)
+		off += 2
+		bounds = append(bounds, off)
+		off += len(h.Ciphers)
+		bounds = append(bounds, off)
+		off += 1
+		bounds = append(bounds, off)
+		off += len(h.Compress)
+		bounds = append(bounds, off)
+		if h.HasExts {
+			off += 2
+			bounds = append(bounds, off)
+			for _, e := range h.Exts {
+				bounds = append(bounds, off+2, off+4)
+				if e.Type == 0 && len(e.Data) >= 5 {
+					bounds = append(bounds, off+4+2, off+4+3, off+4+5)
+				}
+				off += 4 + len(e.Data)
+				bounds = append(bounds, off)
+			}
+		}
+		seen := map[int]bool{}
+		for _, b := range bounds {
+			for _, d := range []int{-1, 0, 1} {
+				n := b + d
+				if n < 0 || n > len(hs) || seen[n] {
+					continue
+				}
+				seen[n] = true
+				addRead("boundary-truncated", record(hs[:n]), fmt.Sprintf("cut=%d of %d", n, len(hs)))
+			}
+		}
+	}
+
 	// 2b. one length field off by a small delta, for every field
 	for i := 0; i < run.Scale(40, 800); i++ {
 		h := genHello(r)
